@@ -33,9 +33,32 @@ class Body:
                     else:
                         self._bind_pat(q, {"k": "Destructure", "of": e, "pat": q})
                 return
-        for n in walk(pat):
-            if n.get("k") == "Binding":
-                self.defs.setdefault(n["lid"], []).append(src)
+        self._bind_pat_rec(pat, src)
+
+    def _bind_pat_rec(self, pat, src):
+        """Bind every Binding under pat to src; a binding under a field of a struct pattern `S { f: <pat>, .. }` is a read
+        of field f of S (same origin node as the expression `x.f`), so `match n { S { f: Some(v), .. } => v }` and
+        `match &n.f { Some(v) => v }` have the same origins."""
+        k = pat.get("k")
+        if k == "Binding":
+            self.defs.setdefault(pat["lid"], []).append(src)
+            if pat.get("sub"):
+                self._bind_pat_rec(pat["sub"], src)
+            return
+        if k == "Struct" and pat.get("def") and any(not f["name"].isdigit() for f in pat.get("fields", [])):
+            for f in pat["fields"]:
+                fsrc = {"k": "Field", "name": f["name"], "base_ty": pat["def"], "e": src.get("of") if isinstance(src, dict) and src.get("k") == "Destructure" else src,
+                        "sp": pat.get("sp"), "from_pattern": True}
+                self._bind_pat_rec(f["pat"], fsrc)
+            return
+        for key in ("pats",):
+            for q in pat.get(key) or []:
+                self._bind_pat_rec(q, src)
+        for f in pat.get("fields") or []:
+            self._bind_pat_rec(f["pat"], src)
+        for key in ("pat", "sub"):
+            if isinstance(pat.get(key), dict):
+                self._bind_pat_rec(pat[key], src)
 
     def _index(self, fn):
         for i, p in enumerate(fn.get("params", [])):
@@ -106,6 +129,8 @@ class Body:
                     out.append(d)
                 elif d.get("k") == "Destructure":
                     out.extend(self.origins(d["of"], seen, depth + 1))
+                elif d.get("k") == "Field" and d.get("from_pattern"):
+                    out.append(d)
                 else:
                     out.extend(self.origins(d, seen, depth + 1))
             if not self.defs.get(lid):
@@ -166,6 +191,35 @@ class Body:
         return [e]
 
 
+def return_exprs(f):
+    """Value-producing exits of a function body: the tail expression and the operand of every `return` (closures excluded)."""
+    out = []
+    h = f["hir"]
+    def rec(n, top):
+        if isinstance(n, dict):
+            if n.get("k") == "Closure":
+                return
+            if n.get("k") == "Ret" and n.get("e") is not None:
+                d = callee(n["e"]) or ""
+                # the error exits (`?` residuals, explicit `return Err(..)`) carry no value of the success type
+                if not (d.endswith("::from_residual") or d.endswith("::Err")):
+                    out.append(n["e"])
+            for v in n.values():
+                if isinstance(v, (dict, list)):
+                    rec(v, False)
+        elif isinstance(n, list):
+            for x in n:
+                rec(x, False)
+    rec(h, True)
+    body = peel(h) if isinstance(h, dict) else None
+    if isinstance(h, dict):
+        if h.get("k") == "Block" and h["b"].get("expr") is not None:
+            out.append(h["b"]["expr"])
+        elif h.get("k") != "Block":
+            out.append(h)
+    return out
+
+
 class Deep:
     """Interprocedural origin resolution: parameters are expanded to the arguments at every resolved call site,
     struct field reads to every initialiser of that field, both within the given crates, up to a depth bound.
@@ -209,6 +263,18 @@ class Deep:
                         t = l.get("base_ty", "").lstrip("&").replace("mut ", "").strip().split("<")[0]
                         self.inits.setdefault((t, l["name"]), []).append((f, n["r"]))
 
+    def _expandable(self, d):
+        """Calls whose value is looked up in the callee: plain functions / inherent methods of the analysed crates that
+        have a body.  Constructors (`new*`) and trait methods stay terminal: rules classify those by name."""
+        if not d or d not in self.F.fns:
+            return False
+        cf = self.F.fns[d]
+        if cf.get("crate") not in self.crates or cf.get("kind") == "Closure" or not cf.get("hir"):
+            return False
+        if cf.get("impl_trait") or cf.get("name", "").startswith("new"):
+            return False
+        return True
+
     def resolve(self, f, e, depth=0, seen=None):
         self._index()
         if seen is None:
@@ -243,6 +309,19 @@ class Deep:
                         out.extend(self.resolve(owner, t["body"], depth + 1, seen))
                 if not hit:
                     out.append(o)
+            elif k in ("Call", "MethodCall") and depth < 6 and self._expandable(callee(o)):
+                # a call of a function of the analysed crates: the value is what that function returns
+                d = callee(o)
+                key = ("r", d)
+                if key in seen:
+                    continue
+                seen.add(key)
+                cf = self.F.fns[d]
+                rets = return_exprs(cf)
+                if not rets:
+                    out.append(o)
+                for re_ in rets:
+                    out.extend(self.resolve(cf, re_, depth + 1, seen))
             elif k == "TupleFieldOf" and depth < 6:
                 for o2 in self.resolve(f, o["of"], depth + 1, seen) if isinstance(o["of"], dict) and o["of"].get("k") not in (None, "Param", "OpenParam") else []:
                     out.extend(b._project(o2, o["index"], set(), 0) if o2.get("k") in ("Tup", "Array") else [o2])
